@@ -473,6 +473,50 @@ def raw_child_offers(v, vec, tier, rnd):
     return n
 
 
+def policy_of_the_matched_entry(v):
+    """The local policy of a CHILD_SA negotiation is the protect entry that the request's selectors matched - not the union of the connection's entries.  A
+    responder with two entries of different suites gets a request whose selectors match the first while its algorithms are acceptable only to the second:
+    NO_PROPOSAL_CHOSEN, nothing installed (in IKE_AUTH, and in CREATE_CHILD_SA after a legitimate CHILD_SA under the second entry)."""
+    import probes
+    n = 0
+    for stage in ('auth', 'child'):
+        ca = wd.connection_dict('A', 'B')
+        cb = wd.connection_dict('B', 'A')
+        base_a, base_b = ca['protect'][0], cb['protect'][0]
+        ca['protect'] = [dict(base_a, ip_proto='udp', peer_port=53, index=2, encr=['aes128'], integ=['sha1']),
+                         dict(base_a, ip_proto='tcp', peer_port=23, index=3, encr=['aes128'], integ=['sha1'])]
+        cb['protect'] = [dict(base_b, ip_proto='tcp', my_port=23, index=31, encr=['aes256'], integ=['sha512']),
+                         dict(base_b, ip_proto='udp', my_port=53, index=32, encr=['aes128'], integ=['sha1'])]
+        w = wd.World(conf={'A': {'A-B': ca}, 'B': {'B-A': cb}}, seed=common.SEED)
+        try:
+            if stage == 'child':
+                m, cur = w.acquire('A', index=2, proto=17, dport=53), 'A'
+                while m is not None:
+                    nxt = w.peer_of(cur)
+                    m, cur = w.dispatch(nxt, m, cur), nxt
+                if [len(x.child_sas) for x in w.sas('B')] != [1]:
+                    raise common.MachineryError('the legitimate CHILD_SA under the second entry did not come up')
+                req = w.acquire('A', index=3, proto=6, dport=23)
+            else:
+                req = w.dispatch('A', w.dispatch('B', w.acquire('A', index=3, proto=6, dport=23), 'A'), 'B')
+            before = sum(1 for r in w.kernel['B'].requests if r['kind'] == 'NEWSA')
+            kids = sum(len(x.child_sas) for x in w.sas('B'))
+            res = w.dispatch('B', req, 'A')
+            n += 1
+            b = w.sas('B')[0]
+            notes = [W.notify_name(p['ntype']) for p in W.dec_message(bytes(res), probes.keys_of(b.my_crypto))['inner'] if p['t'] == W.NOTIFY and p['ntype'] < 16384] if res is not None else []
+            installed = sum(1 for r in w.kernel['B'].requests if r['kind'] == 'NEWSA') - before
+            if notes != ['NO_PROPOSAL_CHOSEN'] or installed or sum(len(x.child_sas) for x in w.sas('B')) != kids:
+                v.violation(f'{stage}: responder entries [tcp/23: aes256+sha512, udp/53: aes128+sha1], request for tcp/23 offering aes128+sha1: answered {notes or "with a suite"}, '
+                            f'{installed} kernel SAs installed - the suite of an entry whose selectors were never compared with the request', {'stage': stage, 'notifies': notes},
+                            signature={'component': 'other-entry', 'stage': stage})
+        except wd.Escape as ex:
+            v.violation(f'policy of the matched entry ({stage}): {ex}', {}, signature={'component': 'other-entry', 'stage': 'escape'})
+        finally:
+            w.close()
+    return n
+
+
 def retry_vectors(v, vec):
     """Negotiate.tla RetryGroupOk: an IKE_SA_INIT answered with INVALID_KE_PAYLOAD naming group g is retried with g iff g is a DH transform of the offer."""
     n = 0
@@ -517,6 +561,7 @@ def run(tier, replay=None):
     n_child = child_end_to_end(v, vec, tier, rnd)
     n_retry = retry_vectors(v, vec)
     n_raw = raw_offers(v, vec, tier, rnd) + raw_child_offers(v, vec, tier, rnd)
+    v.coverage['matched_entry_cases'] = policy_of_the_matched_entry(v)
     sample = vec['select'][0]
     v.coverage.update({'evaluations': n_fun + n_e2e + n_scr + n_retry + n_child + n_raw, 'raw_offers': n_raw, 'child_end_to_end': n_child, 'retry_suggestions': n_retry, 'distinct_nontrivial': n_fun, 'spec_cases': len(vec['select']),
                        'function_level': n_fun, 'classes': n_cls, 'end_to_end_pairs': n_e2e, 'scripted_peer_cases': n_scr,
